@@ -543,6 +543,12 @@ static ares_status_t read_answers(ares_conn_t *conn, const ares_timeval_t *now)
   ares_status_t   status;
   ares_channel_t *channel = conn->server->channel;
   ares_array_t   *requeue = NULL;
+  ares_conn_t    *prev_reading = channel->conn_reading;
+
+  /* Callbacks invoked while processing answers may close this very connection
+   * (ares_cancel() cleaning up idle connections, or a new query failing to
+   * write on it).  ares_close_connection() clears this marker if so. */
+  channel->conn_reading = conn;
 
   /* Process all queued answers */
   while (1) {
@@ -580,6 +586,13 @@ static ares_status_t read_answers(ares_conn_t *conn, const ares_timeval_t *now)
 
     /* We finished reading this answer; process it */
     status = process_answer(channel, data, data_len, conn, now, &requeue);
+
+    /* The connection (and its buffers) went away underneath us, its remaining
+     * queries have already been requeued by ares_close_connection() */
+    if (channel->conn_reading != conn) {
+      goto cleanup;
+    }
+
     if (status != ARES_SUCCESS) {
       handle_conn_error(conn, ARES_TRUE, status);
       goto cleanup;
@@ -590,6 +603,7 @@ static ares_status_t read_answers(ares_conn_t *conn, const ares_timeval_t *now)
   }
 
 cleanup:
+  channel->conn_reading = prev_reading;
 
   /* Flush requeue */
   while (ares_array_len(requeue) > 0) {
